@@ -60,6 +60,13 @@ def run_case(case: Dict[str, Any], ctx) -> None:
             ctx.count("history:primed-in-lower-precision")
         except Exception:
             pass
+    if sA % 4 == 1:
+        try:  # history: a validation pass first - the very same call made under torch.no_grad() before any gradient is taken
+            with torch.no_grad():
+                run_fit(op, U, cfg, constraint, dtype, sA, uA, want_grads=False)
+            ctx.count("history:no_grad-pass-first")
+        except Exception:
+            pass
     try:
         A = run_fit(op, U, cfg, constraint, dtype, sA, uA)
     except Exception as e:
